@@ -84,6 +84,47 @@ _OPERATOR_BIN = {'add': ast.Add, 'sub': ast.Sub, 'mul': ast.Mult, 'truediv': ast
                  'lshift': ast.LShift, 'rshift': ast.RShift, 'and_': ast.BitAnd, 'or_': ast.BitOr}
 
 
+def _format_partial(fmt, args):
+    """'a {0} b {1}'.format(x, 'lit') -> ('a {0} b lit', [x]): literal str / int arguments of plain `{}` / `{n}` fields are written into the
+    format string.  None when nothing can be done (format specs, conversions, attribute fields, no literal argument)."""
+    import string
+    try:
+        parts = list(string.Formatter().parse(fmt))
+    except ValueError:
+        return None
+    auto = 0
+    fields = []
+    for lit, name, spec, conv in parts:
+        if name is None:
+            fields.append((lit, None))
+            continue
+        if spec or conv:
+            return None
+        if name == '':
+            idx = auto
+            auto += 1
+        elif name.isdigit():
+            idx = int(name)
+        else:
+            return None
+        if idx >= len(args):
+            return None
+        fields.append((lit, idx))
+    lit_arg = lambda a: isinstance(a, ast.Constant) and type(a.value) in (str, int)
+    if not any(i is not None and lit_arg(args[i]) for _, i in fields):
+        return None
+    keep = [i for i in range(len(args)) if not lit_arg(args[i])]
+    renum = {old: new for new, old in enumerate(keep)}
+    esc = lambda t: t.replace('{', '{{').replace('}', '}}')
+    out = ''
+    for lit, i in fields:
+        out += esc(lit)
+        if i is None:
+            continue
+        out += esc(str(args[i].value)) if lit_arg(args[i]) else '{%d}' % renum[i]
+    return out, [args[i] for i in keep]
+
+
 class ConstFold(ast.NodeTransformer):
     """`operator.gt(a, b)` -> `a > b` (likewise the other comparison / arithmetic functions of the operator module); comparisons and
     not / and / or of literal constants -> their value; `if <constant>:` -> the branch that runs.  What remains after a table was
@@ -101,6 +142,15 @@ class ConstFold(ast.NodeTransformer):
                 return ast.copy_location(ast.BinOp(left=node.args[0], op=_OPERATOR_BIN[f.attr](), right=node.args[1]), node)
         if isinstance(f, ast.Attribute) and isinstance(f.value, ast.Name) and f.value.id == 'operator' and f.attr == 'not_' and len(node.args) == 1:
             return ast.copy_location(ast.UnaryOp(op=ast.Not(), operand=node.args[0]), node)
+        if isinstance(f, ast.Attribute) and f.attr == 'format' and isinstance(f.value, ast.Constant) and isinstance(f.value.value, str) and \
+                not node.keywords and node.args and not any(isinstance(a, ast.Starred) for a in node.args):
+            new = _format_partial(f.value.value, node.args)
+            if new is not None:
+                text, rest = new
+                if not rest:
+                    return ast.copy_location(ast.Constant(value=text.replace('{{', '{').replace('}}', '}')), node)
+                f.value = ast.copy_location(ast.Constant(value=text), f.value)
+                node.args = rest
         return node
 
     def visit_Compare(self, node):
